@@ -28,10 +28,17 @@ fn strategy(style: TargetStyle, outer_absent: bool) -> impl Strategy<Value = Cas
 fn check<const N: usize>(case: &Case, obs: &mut Obs) -> PropResult {
 	let m = &case.m;
 	let ns_name = &m.ns[case.ns];
-	let q = to_quill::<N, Ns>(m, case.order).map_err(|e| format!("harness: {e:#}"))?;
+	let mut q = to_quill::<N, Ns>(m, case.order).map_err(|e| format!("harness: {e:#}"))?;
+	// the comment of the set itself must come through both operations untouched (the plain model has no slot for it)
+	let set_comment = Some(quill::tree::mappings::JavadocMapping("about this set\nsecond line".to_string()));
+	q.javadoc = set_comment.clone();
 	let stored_simple = m.classes.iter().all(|(k, c)| split_inner(k).is_none() || c.names[case.ns].as_deref().is_none_or(|n| !n.contains('$') && !n.contains('/')));
 	// contraction: only the innermost simple name is kept, everything else untouched
-	let contracted = q.contract_inner_class_names(ns_name).map_err(|e| format!("contract failed: {e:#}"))?;
+	let mut contracted = q.contract_inner_class_names(ns_name).map_err(|e| format!("contract failed: {e:#}"))?;
+	if contracted.javadoc != set_comment {
+		return Err(format!("contract_inner_class_names changed the comment of the set to {:?}", contracted.javadoc));
+	}
+	contracted.javadoc = None;
 	let contracted_m = from_quill(&contracted).map_err(|e| format!("contract result inconsistent: {e:#}"))?;
 	let exp_c = refops::contract_inner(m, case.ns);
 	if contracted_m != exp_c {
@@ -39,6 +46,15 @@ fn check<const N: usize>(case: &Case, obs: &mut Obs) -> PropResult {
 	}
 	let expected = refops::extend_inner(m, case.ns);
 	let got = q.extend_inner_class_names(ns_name);
+	if let Ok(r) = &got {
+		if r.javadoc != set_comment {
+			return Err(format!("extend_inner_class_names changed the comment of the set to {:?}", r.javadoc));
+		}
+	}
+	let got = got.map(|mut r| {
+		r.javadoc = None;
+		r
+	});
 	// a nested class without a name in the namespace has nothing to extend: if its outer class is
 	// missing the statement is silent about failing
 	let unnamed_orphan = m.classes.iter().any(|(k, c)| c.names[case.ns].is_none() && split_inner(k).is_some_and(|(p, _)| !m.classes.contains_key(p)));
